@@ -430,6 +430,14 @@ func (c *container) recvReply() (reply, unixsocket.Msg, error) {
 }
 
 func (c *container) sendCmd(cmd cmd, msg unixsocket.Msg) error {
+	// a dead environment takes no further command, also while the send queue still has room:
+	// the call would go on to wait for a reply and could be handed one that an earlier call,
+	// ended by the failure, left behind
+	select {
+	case <-c.done:
+		return c.err
+	default:
+	}
 	select {
 	case <-c.done:
 		return c.err
